@@ -383,10 +383,8 @@ func (in *Interp) runInit(p *ssa.Package) {
 	func() {
 		defer func() {
 			if r := recover(); r != nil {
-				if _, ok := r.(abortErr); ok {
-					// tolerate partially modelled initialisers
-					in.trace = append(in.trace, fmt.Sprintf("init %s: partially executed: %v", p.Pkg.Path(), r))
-					return
+				if a, ok := r.(abortErr); ok {
+					panic(abort(fmt.Sprintf("package initializer of %s not fully modelled: %s", p.Pkg.Path(), a.msg)))
 				}
 				panic(r)
 			}
@@ -425,6 +423,12 @@ func fullName(fn *ssa.Function) string {
 
 func (in *Interp) callFn(fn *ssa.Function, args []Value, env []Value) Value {
 	name := fullName(fn)
+	if fn.Synthetic == "package initializer" {
+		if fn.Pkg != nil && in.L.interpretInit(fn.Pkg) && !in.initDone[fn.Pkg] {
+			in.runInit(fn.Pkg)
+		}
+		return nil
+	}
 	// 1. harness primitives
 	if fn.Pkg != nil || fn.Origin() != nil {
 		pk := fn.Pkg
